@@ -128,9 +128,15 @@ def full_state_snapshot(opt, params: list[torch.Tensor]) -> dict:
 
 def rewrap_for_load(disk_sd: dict, opt, params: list[torch.Tensor], nm: list[str]) -> dict:
     """Restart: saved local data is re-wrapped onto the *fresh* optimizer's state layout (DTensor meshes)."""
+    out = {"state": {}, "param_groups": copy.deepcopy(disk_sd.get("param_groups", {}))}
+    has_dtensor = any(type(t).__name__ == "DTensor" for p in params if p in opt.state for _, t in spec.walk_state(opt.state[p]))
+    if not has_dtensor:
+        # plain tensors everywhere (serial, FSDP, fully_shard state): what was saved is what is loaded
+        for pk, flat in disk_sd["state"].items():
+            out["state"][pk] = {k: (v.clone() if isinstance(v, torch.Tensor) else copy.deepcopy(v)) for k, v in flat.items()}
+        return out
     from distributed_shampoo.utils.shampoo_checkpoint_utils import extract_state_dict_content, flatten
 
-    out = {"state": {}, "param_groups": copy.deepcopy(disk_sd.get("param_groups", {}))}
     live = {nm[i]: flatten(extract_state_dict_content(opt.state[p])) for i, p in enumerate(params) if p in opt.state}
     for pk, flat in disk_sd["state"].items():
         o = {}
